@@ -756,6 +756,9 @@ struct WState {
     torn: bool,
     /// state bits last set successfully through the API, per path
     state_set: Vec<(String, u32)>,
+    /// streams whose last flush returned Ok and read back right then, with the accepted
+    /// bytes; an entry goes when anything writes to, resizes, re-creates or removes the stream
+    durable: Vec<(String, Vec<u8>)>,
 }
 
 fn w_step_name(s: &WStep) -> &'static str {
@@ -782,6 +785,15 @@ fn w_exec(st: &mut WState, step: &WStep, rep: &mut Report) -> Result<Result<(), 
     st.api += 1;
     st.shared.set_api(st.api);
     let hits_before = st.shared.hits().len();
+    let touched: Option<String> = match step {
+        WStep::OpenNew { path, .. } => Some(path.clone()),
+        WStep::Remove(p) => Some(p.clone()),
+        WStep::Write { slot, .. } | WStep::WriteVectored { slot, .. } | WStep::SetLen { slot, .. } => st.handles.get(*slot).and_then(|h| h.as_ref()).map(|h| h.path.clone()),
+        _ => None,
+    };
+    if let Some(p) = touched {
+        st.durable.retain(|x| x.0 != p);
+    }
     let r: Result<(), std::io::Error> = match step {
         WStep::CreateStorage(p) => st.cf.create_storage(p),
         WStep::OpenNew { slot, path } | WStep::OpenExisting { slot, path } => {
@@ -1015,6 +1027,8 @@ fn w_exec(st: &mut WState, step: &WStep, rep: &mut Report) -> Result<Result<(), 
                                         return Err((format!("flush Ok | accepted bytes not readable by a fresh handle{}", if after_failed { " (previous flush attempt had failed)" } else { "" }), format!("{path}: {d}")));
                                     }
                                     rep.count("ok_flush_readbacks");
+                                    st.durable.retain(|x| x.0 != path);
+                                    st.durable.push((path.clone(), want.clone()));
                                     if after_failed {
                                         rep.count("ok_flush_after_failed_flush_readbacks");
                                     }
@@ -1178,11 +1192,11 @@ pub fn run_c13(ctx: &Ctx, rep: &mut Report) {
                 let plan = vec![Fault { kinds: mask, k, err: kind, sticky: full, partial }];
                 let mut fired = false;
                 crate::guard::case_begin(case); // CPU budget per faulty run, not per workload
-                let before = rep.get(&format!("positions.{label}"));
+                let set_len_errors_before = rep.get("api_errors.set_len");
                 let r = guard::catch(|| {
                     let (res, hit) = {
                         // run and report whether the fault fired at all
-                        let res = w_run_observed(&script, version, plan, rep, Some(n), start_image.as_deref());
+                        let res = w_run_observed(&script, version, plan.clone(), rep, Some(n), start_image.as_deref());
                         match res {
                             Ok((n, hit, _)) => (Ok(n), hit),
                             Err(e) => (Err(e), true),
@@ -1191,7 +1205,19 @@ pub fn run_c13(ctx: &Ctx, rep: &mut Report) {
                     fired = hit;
                     res
                 });
-                let _ = before;
+                // the fault made a set_len fail: the same position once more with the other
+                // answer to "is the failed set_len repeated?" (the answer otherwise follows
+                // the parity of k, and so do the calls inside a loop over FAT cells)
+                let r = if matches!(r, Ok(Ok(_))) && rep.get("api_errors.set_len") > set_len_errors_before {
+                    rep.count("positions_run_with_both_set_len_policies");
+                    FLIP_SET_LEN_POLICY.with(|c| c.set(true));
+                    let r2 = guard::catch(|| w_run_observed(&script, version, plan.clone(), rep, Some(n), start_image.as_deref()).map(|x| x.0));
+                    FLIP_SET_LEN_POLICY.with(|c| c.set(false));
+                    rep.evaluations += 1;
+                    r2
+                } else {
+                    r
+                };
                 rep.evaluations += 1;
                 let fw = || witness(vec![("fault_kind", J::s(label)), ("fault_position", J::Int(k as i128)), ("short_then_fail", J::Bool(partial))]);
                 match r {
@@ -1223,6 +1249,12 @@ pub fn run_c13(ctx: &Ctx, rep: &mut Report) {
     crate::guard::case_end();
 }
 
+thread_local! {
+    /// set for the second run of a fault position at which a set_len failed: the run that
+    /// repeated the call is done again without repeating it, and vice versa
+    static FLIP_SET_LEN_POLICY: std::cell::Cell<bool> = const { std::cell::Cell::new(false) };
+}
+
 /// Like `w_run` but also says whether the armed fault fired.
 fn w_run_observed(script: &[WStep], version: Version, faults: Vec<Fault>, rep: &mut Report, fault_free_calls: Option<u64>, start: Option<&[u8]>) -> Result<(u64, bool, [u64; 3]), (String, String)> {
     let (file, shared) = MonFile::new(start.map(|b| b.to_vec()).unwrap_or_default());
@@ -1234,7 +1266,7 @@ fn w_run_observed(script: &[WStep], version: Version, faults: Vec<Fault>, rep: &
     .map_err(|e| ("create | failed without faults".to_string(), format!("{e}")))?;
     let base = shared.seq();
     let torn = faults.iter().any(|f| f.partial);
-    let no_set_len_retry = faults.first().map(|f| f.k % 2 == 1).unwrap_or(false);
+    let no_set_len_retry = faults.first().map(|f| (f.k % 2 == 1) != FLIP_SET_LEN_POLICY.with(|c| c.get())).unwrap_or(false);
     shared.arm(faults);
     // bounded progress in logical steps: with three attempts per step plus the harness's
     // own readbacks a run needs a small multiple of the fault-free call count; at fifty
@@ -1242,7 +1274,7 @@ fn w_run_observed(script: &[WStep], version: Version, faults: Vec<Fault>, rep: &
     if let Some(n) = fault_free_calls {
         shared.set_step_budget(50 * n + 20_000);
     }
-    let mut st = WState { shared: shared.clone(), cf, handles: Vec::new(), api: 0, writes: 0, structure_tainted: false, unrecovered: false, torn, state_set: Vec::new() };
+    let mut st = WState { shared: shared.clone(), cf, handles: Vec::new(), api: 0, writes: 0, structure_tainted: false, unrecovered: false, torn, state_set: Vec::new(), durable: Vec::new() };
     let kind_counts = |sh: &Shared| {
         let g = sh.lock();
         [g.c.writes, g.c.seeks, g.c.flushes]
@@ -1284,6 +1316,32 @@ fn w_run_observed(script: &[WStep], version: Version, faults: Vec<Fault>, rep: &
     }
     for h in st.handles.iter_mut().flatten() {
         let _ = h.stream.flush();
+    }
+    // "is in the compound file and is read back by a fresh handle" has no expiry date: when
+    // every failed call succeeded on retry, a stream that nothing touched since its flush
+    // returned Ok still reads back the same at the end of the workload
+    if !st.unrecovered && !st.torn && !st.structure_tainted {
+        shared.pause_faults(true);
+        let open_paths: Vec<String> = st.handles.iter().flatten().map(|h| h.path.clone()).collect();
+        for (p, want) in st.durable.clone() {
+            if open_paths.contains(&p) {
+                continue;
+            }
+            let mut got = Vec::new();
+            match st.cf.open_stream(&p).and_then(|mut f| f.read_to_end(&mut got)) {
+                Ok(_) if got == want => rep.count("end_of_workload_readbacks"),
+                Ok(_) => {
+                    shared.pause_faults(false);
+                    let d = if got.len() == want.len() { engine::describe_bytes_diff(&want, &got) } else { format!("{} bytes accepted, fresh handle reads {}", want.len(), got.len()) };
+                    return Err(("flush Ok | accepted bytes changed later although nothing touched the stream".to_string(), format!("{p}: flushed with Ok and read back then; at the end of the workload (every failed call had succeeded on retry): {d}")));
+                }
+                Err(e) => {
+                    shared.pause_faults(false);
+                    return Err(("flush Ok | the stream can no longer be read at the end of the workload".to_string(), format!("{p}: flushed with Ok and read back then; at the end of the workload (every failed call had succeeded on retry): {e}")));
+                }
+            }
+        }
+        shared.pause_faults(false);
     }
     let fired = !shared.hits().is_empty();
     if shared.over_budget() {
